@@ -6,6 +6,7 @@
 #![allow(unused_imports, dead_code, non_camel_case_types, non_snake_case, unused_variables, unused_mut, unused_assignments)]
 use vstd::prelude::*;
 use std::collections::VecDeque;
+use vstd::std_specs::iter::IteratorSpec;
 verus! {
 global size_of usize == 8;
 pub mod shims {
@@ -17,8 +18,27 @@ impl<K, V> FxHashMap<K, V> {
     pub uninterp spec fn has(&self, k: K) -> bool;
     #[verifier::external_body] pub fn contains_key(&self, k: &K) -> (r: bool) ensures r == self.has(*k) { unimplemented!() }
     #[verifier::external_body] pub fn get(&self, k: &K) -> (r: Option<&V>) ensures r.is_some() == self.has(*k) { unimplemented!() }
+    #[verifier::external_body] pub fn remove(&mut self, k: &K) -> (r: Option<V>)
+        ensures r.is_some() == old(self).has(*k), !final(self).has(*k), forall|k2: K| k2 != *k ==> final(self).has(k2) == old(self).has(k2)
+    { unimplemented!() }
 }
+/// `Dir::iter()`: both directions, Bi first (`[Self::Bi, Self::Uni].iter().cloned()`)
+#[verifier::external_body] pub struct DirIter { x: u8 }
+impl DirIter { pub uninterp spec fn left(&self) -> nat; }
+impl Iterator for DirIter {
+    type Item = super::code::Dir;
+    #[verifier::external_body] fn next(&mut self) -> (r: Option<super::code::Dir>) { unimplemented!() }
+}
+impl vstd::std_specs::iter::IteratorSpecImpl for DirIter {
+    open spec fn obeys_prophetic_iter_laws(&self) -> bool { true }
+    #[verifier::prophetic] uninterp spec fn remaining(&self) -> Seq<super::code::Dir>;
+    #[verifier::prophetic] open spec fn will_return_none(&self) -> bool { true }
+    open spec fn decrease(&self) -> Option<nat> { Some(self.left()) }
+    open spec fn peek(&self, i: int) -> Option<super::code::Dir> { None }
+}
+#[verifier::external_body] pub fn dir_iter() -> (it: DirIter) ensures it.remaining() == seq![super::code::Dir::Bi, super::code::Dir::Uni] { unimplemented!() }
 #[verifier::external_body] pub struct PendingStreamsQueue { x: u8 }
+impl PendingStreamsQueue { #[verifier::external_body] pub fn clear(&mut self) { unimplemented!() } }
 #[verifier::external_body] pub struct StreamRecv { x: u8 }
 #[derive(Copy, Clone, PartialEq, Eq)] pub struct VarInt(pub u64);
 impl vstd::std_specs::cmp::PartialEqSpecImpl for VarInt { open spec fn obeys_eq_spec() -> bool { true } open spec fn eq_spec(&self, o: &VarInt) -> bool { *self == *o } }
@@ -190,11 +210,20 @@ impl StreamId {
     pub open spec fn spec_initiator(self) -> Side { if self.0 & 0x1 == 0 { Side::Client } else { Side::Server } }
     pub open spec fn spec_dir(self) -> Dir { if self.0 & 0x2 == 0 { Dir::Bi } else { Dir::Uni } }
     pub open spec fn spec_index(self) -> u64 { self.0 >> 2 }
+    pub open spec fn spec_new(initiator: Side, dir: Dir, index: u64) -> StreamId { StreamId((index << 2) | ((dir as u64) << 1) | (initiator as u64)) }
+    /// distinct (direction, index) pairs give distinct ids
+    pub proof fn lemma_new_distinct(s: Side, d1: Dir, i1: u64, d2: Dir, i2: u64)
+        requires i1 < 0x4000_0000_0000_0000, i2 < 0x4000_0000_0000_0000, d1 != d2 || i1 != i2
+        ensures Self::spec_new(s, d1, i1) != Self::spec_new(s, d2, i2)
+    {
+        lemma_stream_id_bits(i1, d1 as u64, s as u64);
+        lemma_stream_id_bits(i2, d2 as u64, s as u64);
+    }
 //@ extract quinn-proto/src/lib.rs :: impl StreamId::fn new
 //@ ret r
 //@ contract
         requires index < 0x4000_0000_0000_0000
-        ensures r.spec_index() == index, r.spec_dir() == dir, r.spec_initiator() == initiator
+        ensures r.spec_index() == index, r.spec_dir() == dir, r.spec_initiator() == initiator, r == Self::spec_new(initiator, dir, index)
 //@ at-start
         proof { lemma_stream_id_bits(index, dir as u64, initiator as u64); }
 //@ end
@@ -251,6 +280,45 @@ impl StreamsState {
         ensures final(self).fc() == old(self).fc(), final(self).recv == old(self).recv, final(self).side == old(self).side,
     { unimplemented!() }
 
+//@ extract quinn-proto/src/connection/streams/state.rs :: impl StreamsState::fn zero_rtt_rejected
+//@ props C05
+//@ replace Dir::iter() => dir_iter()
+//@ contract
+        requires
+            // every stream this side has opened has its entries (they are created together with the stream)
+            old(self).next[0] <= 0x1000_0000_0000_0000, old(self).next[1] <= 0x1000_0000_0000_0000,
+            forall|d: Dir, i: u64| i < old(self).next[di(d)] ==> #[trigger] old(self).send.has(StreamId::spec_new(old(self).side, d, i)),
+            forall|i: u64| i < old(self).next[0] ==> #[trigger] old(self).recv.has(StreamId::spec_new(old(self).side, Dir::Bi, i)),
+        ensures
+            // back to the state of a connection on which the peer has not granted anything yet: no stream is open, nothing counts as
+            // sent, and no credit remembered from the previous connection survives
+            final(self).next[0] == 0 && final(self).next[1] == 0, final(self).send_streams == 0, final(self).data_sent == 0,
+            final(self).max_data == 0,
+//@ loop-iter 0 od
+//@ loop 0
+            invariant
+                od.seq() == seq![Dir::Bi, Dir::Uni], self.side == old(self).side,
+                forall|j: int| 0 <= j < od.index@ ==> self.next[di(od.seq()[j])] == 0,
+                forall|j: int| od.index@ <= j < 2 ==> self.next[di(od.seq()[j])] == old(self).next[di(od.seq()[j])],
+                old(self).next[0] <= 0x1000_0000_0000_0000, old(self).next[1] <= 0x1000_0000_0000_0000, self.next[0] <= 0x1000_0000_0000_0000, self.next[1] <= 0x1000_0000_0000_0000,
+                forall|d: Dir, i: u64| i < self.next[di(d)] ==> #[trigger] self.send.has(StreamId::spec_new(self.side, d, i)),
+                od.index@ == 0 ==> forall|i: u64| i < self.next[0] ==> #[trigger] self.recv.has(StreamId::spec_new(self.side, Dir::Bi, i)),
+                self.max_data == old(self).max_data, self.data_sent == old(self).data_sent,
+//@ loop 1
+                invariant
+                    self.side == old(self).side, self.next == me_next, self.max_data == old(self).max_data, self.data_sent == old(self).data_sent,
+                    self.next[0] <= 0x1000_0000_0000_0000, self.next[1] <= 0x1000_0000_0000_0000,
+                    forall|d: Dir, k: u64| (d != dir || k >= i) && k < self.next[di(d)] ==> #[trigger] self.send.has(StreamId::spec_new(self.side, d, k)),
+                    dir == Dir::Bi ==> forall|k: u64| i <= k < self.next[0] ==> #[trigger] self.recv.has(StreamId::spec_new(self.side, Dir::Bi, k)),
+//@ loop-start 0
+            let ghost me_next = self.next;
+//@ after let id = StreamId::new(self.side, dir, i);
+                proof {
+                    assert forall|d2: Dir, k: u64| (d2 != dir || k != i) && k < 0x4000_0000_0000_0000 implies #[trigger] StreamId::spec_new(self.side, d2, k) != id by {
+                        StreamId::lemma_new_distinct(self.side, d2, k, dir, i);
+                    }
+                }
+//@ end
 //@ extract quinn-proto/src/connection/streams/state.rs :: impl StreamsState::fn set_params
 //@ props C05
 //@ replace self.send.get_mut(&id).and_then(|s| s.as_mut()) => send_get(&mut self.send, id)
